@@ -180,6 +180,55 @@ func TestVerifDriverC06(t *testing.T) {
 			}
 		}
 	}
+	// several roots with DIFFERENT sanitizers in one process, in every order, with the
+	// registry's own cardinality metrics switched on and given tags that need
+	// sanitizing: whatever reaches a root's reporter (also the cardinality gauges and
+	// their tags) is clean by that root's own rules
+	type sanCfg struct {
+		label string
+		opts  SanitizeOptions
+		ok    func(r rune) bool
+	}
+	alnum := func(r rune) bool { return r >= 'a' && r <= 'z' || r >= 'A' && r <= 'Z' || r >= '0' && r <= '9' }
+	cfgs := []sanCfg{
+		{"alnum+underscore, replace with _", sopts, func(r rune) bool { return alnum(r) || r == '_' }},
+		{"alnum only, replace with X", SanitizeOptions{NameCharacters: ValidCharacters{Ranges: AlphanumericRange}, KeyCharacters: ValidCharacters{Ranges: AlphanumericRange}, ValueCharacters: ValidCharacters{Ranges: AlphanumericRange}, ReplacementCharacter: 'X'}, alnum},
+		{"alnum+dot+dash, replace with -", SanitizeOptions{NameCharacters: ValidCharacters{Ranges: AlphanumericRange, Characters: []rune{'.', '-'}}, KeyCharacters: ValidCharacters{Ranges: AlphanumericRange, Characters: []rune{'.', '-'}}, ValueCharacters: ValidCharacters{Ranges: AlphanumericRange, Characters: []rune{'.', '-'}}, ReplacementCharacter: '-'}, func(r rune) bool { return alnum(r) || r == '.' || r == '-' }},
+	}
+	for _, order := range [][]int{{0, 1, 2}, {1, 2, 0}, {2, 0, 1}, {2, 1, 0}} {
+		for _, cached := range []bool{false, true} {
+			for _, ci := range order {
+				cfg := cfgs[ci]
+				rep := &vdC06Rep{}
+				o := cfg.opts
+				so := ScopeOptions{Prefix: "my svc", Tags: map[string]string{"e nv": "pr/od"}, SanitizeOptions: &o, CardinalityMetricsTags: map[string]string{"data center": "us-east/1"}}
+				if cached {
+					so.CachedReporter = rep
+				} else {
+					so.Reporter = rep
+				}
+				root := newRootScope(so, 0)
+				root.Counter("hits total").Inc(1)
+				root.Tagged(map[string]string{"req id": "/a"}).Gauge("queue.depth").Update(1)
+				root.reportRegistry()
+				rep.mu.Lock()
+				seen := append([]string{}, rep.seen...)
+				rep.mu.Unlock()
+				if len(seen) == 0 {
+					fail("sanitizer %q (order %v, cached=%v): nothing reached the reporter", cfg.label, order, cached)
+				}
+				for _, x := range seen {
+					for _, r := range x {
+						if !cfg.ok(r) {
+							fail("sanitizer %q (order %v, cached=%v): %q reached the reporter", cfg.label, order, cached, x)
+							break
+						}
+					}
+				}
+				root.Close()
+			}
+		}
+	}
 	if fails == 0 {
 		fmt.Fprintln(os.Stdout, "DRIVER-RESULT: ok")
 	} else {
